@@ -692,6 +692,10 @@ func runURR(prop, tier, bound string, assume ...string) {
 	spec := urrSpec(prop)(tier, "urr")
 	// both map iteration orders; quick: C12 only (C11 quick already runs into its deadline with one order)
 	st := seqx.ExploreOrders(run, spec, tier, smp, &total, tier == "thorough" || prop == "C12")
+	if prop == "C12" {
+		seqx.SetOrder("urr")
+		run.Set("many_referrers_requests", c12ManyReferrers(run))
+	}
 	seqx.Finish(run, total, smp, fmt.Sprintf(bound, spec.MaxDepth, st.DepthDone))
 	for _, a := range assume {
 		run.Assumption(a)
@@ -701,8 +705,53 @@ func runURR(prop, tier, bound string, assume ...string) {
 	run.Finish()
 }
 
+// c12ManyReferrers: the boundary counts of the per-URR reference count. One URR is named by N PDRs (N around
+// 2^8: 255, 256, 257; thorough also 2^16 neighbours is beyond a single request's size and left out); the PDRs are
+// removed one by one: no report before the last referrer goes, exactly one final report (TERMR) when it does.
+func c12ManyReferrers(run *evid.Run) int {
+	evals := 0
+	for _, n := range []int{2, 255, 256, 257} {
+		b := NewBase(Options{MaxRetrans: 1})
+		fail := func(sig, format string, a ...interface{}) {
+			run.Report(evid.Violation{Signature: "C12:" + sig, Engine: "E1-seqx", Scenario: "many-referrers", What: fmt.Sprintf("URR 1 named by %d PDRs: ", n) + fmt.Sprintf(format, a...),
+				Replay: map[string]interface{}{"kind": "many-referrers", "pdrs": n}})
+		}
+		o := b.W.Send(0, smf.Assoc(b.NextSeq(0), b.W.PeerIP(0)))
+		ops := []smf.RuleOp{op('C', 'F', 1), {Verb: 'C', Kind: 'U', ID: 1, MInfo: -1}}
+		for i := 1; i <= n; i++ {
+			ops = append(ops, pdr('C', uint32(i), 1, 1))
+		}
+		o = b.W.Send(0, smf.Est(b.NextSeq(0), b.W.PeerIP(0), true, 0x10, b.W.PeerIP(0), ops...))
+		evals++
+		if !o.Alive || o.Fatal || len(o.Out[0]) != 1 || o.Out[0][0].Cause() != smf.CauseAccepted {
+			fail("many-referrers:est", "establishment not accepted: %v (alive=%v fatal=%v)", o.Out[0], o.Alive, o.Fatal)
+			b.Close()
+			continue
+		}
+		up, _, _ := o.Out[0][0].FSEID()
+		for i := 1; i <= n; i++ {
+			o = b.W.Send(0, smf.Mod(b.NextSeq(0), up, "", smf.RuleOp{Verb: 'R', Kind: 'P', ID: uint32(i), MInfo: -1}))
+			evals++
+			if !o.Alive || o.Fatal || len(o.Out[0]) != 1 || o.Out[0][0].Cause() != smf.CauseAccepted {
+				fail("many-referrers:mod", "Remove PDR %d not accepted: %v (alive=%v fatal=%v)", i, o.Out[0], o.Alive, o.Fatal)
+				break
+			}
+			urs := o.Out[0][0].UsageReports()
+			if i < n && len(urs) != 0 {
+				fail("early-final-report:many-referrers", "Remove PDR %d produced %d usage report(s) while %d PDRs still refer to the URR", i, len(urs), n-i)
+				break
+			}
+			if i == n && (len(urs) != 1 || urs[0].URRID != 1 || urs[0].Trigger&(1<<11) == 0) {
+				fail("missing-final-report:many-referrers", "removal of the last referring PDR produced %d usage report(s) %v, want exactly one for URR 1 marked as termination report", len(urs), urs)
+			}
+		}
+		b.Close()
+	}
+	return evals
+}
+
 func RunC12(tier string) {
-	runURR("C12", tier, "one session, PDR ids {1,2} (thorough {1,2,3}) x URR ids {1,2}: Create/Update/Remove PDR with every URR list, Create/Remove/Query URR, the pairs Create URR+Create PDR, Remove URR+Remove PDR and Query URR+Remove PDR in one message, Deletion and re-establishment; all histories to depth %d (completed %d) from the established session")
+	runURR("C12", tier, "one session, PDR ids {1,2} (thorough {1,2,3}) x URR ids {1,2}: Create/Update/Remove PDR with every URR list, Create/Remove/Query URR, the pairs Create URR+Create PDR, Remove URR+Remove PDR and Query URR+Remove PDR in one message, Deletion and re-establishment; all histories to depth %d (completed %d) from the established session; plus the boundary counts of the reference count: one URR named by 2 / 255 / 256 / 257 PDRs removed one by one")
 }
 
 func RunC11(tier string) {
